@@ -258,7 +258,7 @@ def run_bounded(res):
     res.coverage['mixed_scope_command_executions'] = nmixed
     for kind in sorted(best):
         _, text, seq, init, scope = best[kind]
-        fid = next((f for p, f in KNOWN.items() if kind.startswith(p)), None)
+        fid = next((f for p, f in KNOWN.items() if common.kind_matches(kind, p)), None)
         if fid:
             res.known_hit(fid)
             continue
